@@ -77,6 +77,31 @@ func cborMapOf(b []byte) (map[int64]*refcbor.Node, []int64, []string) {
 	return m, order, probs
 }
 
+// c15Held keeps the slices the serialisers returned (the slice itself plus a copy
+// taken at once); each is compared again after six further serialisations (seeded
+// fault C15-v: output built in a pooled scratch buffer that is handed out).
+var c15Held []struct {
+	got, copy []byte
+	what      string
+}
+
+func c15Hold(c *mon.Ctx, got []byte, what string) {
+	c15Held = append(c15Held, struct {
+		got, copy []byte
+		what      string
+	}{got, append([]byte{}, got...), what})
+	if len(c15Held) <= 6 {
+		return
+	}
+	it := c15Held[0]
+	c15Held = c15Held[1:]
+	c.Count("returned-bytes-rechecked")
+	if !bytes.Equal(it.got, it.copy) {
+		c.Violation("C15/returned-bytes-changed-later/"+it.what, "bytes returned by "+it.what+" changed after further serialisations (populating from them no longer reproduces the value)",
+			map[string]any{"returned_then": mon.Hex(it.copy), "same_slice_now": mon.Hex(it.got)})
+	}
+}
+
 // c15CBOR checks one (shape, value) against the CBOR half of the property.
 func c15CBOR(c *mon.Ctx, g *model.Gen, sn string, v any, sig string, embedded bool) {
 	bad := func(key, what string, extra map[string]any) {
@@ -92,6 +117,7 @@ func c15CBOR(c *mon.Ctx, g *model.Gen, sn string, v any, sig string, embedded bo
 		bad("serialize-failed", "SerializeStructToCBOR failed: "+err.Error(), nil)
 		return
 	}
+	c15Hold(c, b, "SerializeStructToCBOR")
 	m, order, probs := cborMapOf(b)
 	if len(probs) > 0 {
 		bad("not-one-map/"+probs[0], fmt.Sprintf("output is not one definite map: %v", probs), map[string]any{"hex": mon.Hex(b)})
@@ -278,6 +304,9 @@ type richFlat struct {
 	WideNeg *int64 `cbor:"-4294967303,keyasint,omitempty" json:"wide-neg,omitempty"`
 	// an embedded named NON-struct type is an ordinary field (named after its type)
 	RichBytes `cbor:"12,keyasint,omitempty" json:"rich-bytes,omitempty"`
+	// omitempty is not the last option of the tag (seeded faults C15-u / C10-u)
+	OptMid  *string `cbor:"13,omitempty,keyasint" json:"opt-mid,omitempty,nonsense"`
+	OptMid2 *int64  `cbor:"14,omitempty,keyasint,toarray" json:"opt-mid2,omitempty,nonsense,more"`
 }
 
 type RichBytes []byte
@@ -311,6 +340,10 @@ func c15Rich(c *mon.Ctx, g *model.Gen) {
 	}
 	if g.R.Intn(2) == 0 {
 		v.List = []richNested{{X: 1}, {X: 2, Y: g.Text()}}
+	}
+	if g.R.Intn(3) == 0 {
+		n := int64(g.R.Intn(100))
+		v.OptMid, v.OptMid2 = model.SP(g.Text()), &n
 	}
 	if g.R.Intn(2) == 0 {
 		v.Map = map[string]uint16{"a": uint16(g.R.Intn(65536))} // one entry: Go map order must not enter the comparison
@@ -425,6 +458,7 @@ func c15JSON(c *mon.Ctx, g *model.Gen, sn string, v any, sig string, embedded bo
 		bad("serialize-failed", "SerializeStructToJSON failed: "+err.Error(), nil)
 		return
 	}
+	c15Hold(c, b, "SerializeStructToJSON")
 	root, perr := parseJSON(b)
 	if perr != nil || root.kind != 'o' {
 		bad("not-one-object", fmt.Sprintf("output is not one JSON object (%v)", perr), map[string]any{"json": string(b)})
@@ -623,7 +657,7 @@ func c15Synth(c *mon.Ctx, g *model.Gen, n int, fill string) {
 }
 
 func runC15(c *mon.Ctx) {
-	c.Rule("a flat struct with struct-kind field values (time.Time, big.Int, nested structs by value / pointer / in slices, map) compared with the plain marshallers and round-tripped; shapes following the claims convention (pointer-typed tagged fields, '-' for bookkeeping fields): flat; one and two levels of embedded struct; embedded interface holding a struct pointer, the struct by value (must serialise exactly like the pointer-holding twin) or nothing; all-optional flat and embedded; flat reflect.StructOf shapes with N synthetic keys, N (and number of set fields) in {0,1,22,23,24,25,254,255,256,257} (thorough: also 65534..65537, 70000); the two extension profiles built on P2Claims / P1Claims. For random field values x every subset of optional fields (mandatory fields set or nil): the output of SerializeStructToCBOR / JSON, read by the independent CBOR reader / a generic JSON parse, must be exactly one map = union of outer and embedded fields honouring omitempty and '-', right value per key, no duplicates, nothing trailing; serialising twice gives identical bytes; populating a fresh struct reproduces the value (incl. the all-empty one); for shapes without embedding the output decodes to the same map as the plain fxamacker / encoding/json marshaller's; removing a non-optional key makes populate fail (into a zero destination and into one that already holds values), removing an optional one does not; a duplicated CBOR key makes populate fail, also when the map is re-encoded as an indefinite-length / tagged / tagged indefinite-length / non-minimal-length map under the CBOR library's default decoding mode, while each of these forms without the duplicate populates to the same value. Extension profiles: MarshalCBOR/JSON of valid claims = base profile wire map + extension member, and round-trips. distinct_nontrivial = distinct (shape, set-field subset) signatures")
+	c.Rule("a flat struct with struct-kind field values (time.Time, big.Int, nested structs by value / pointer / in slices, map) compared with the plain marshallers and round-tripped; shapes following the claims convention (pointer-typed tagged fields, '-' for bookkeeping fields): flat; one and two levels of embedded struct; embedded interface holding a struct pointer, the struct by value (must serialise exactly like the pointer-holding twin) or nothing; all-optional flat and embedded; flat reflect.StructOf shapes with N synthetic keys, N (and number of set fields) in {0,1,22,23,24,25,254,255,256,257} (thorough: also 65534..65537, 70000); the two extension profiles built on P2Claims / P1Claims. For random field values x every subset of optional fields (mandatory fields set or nil): the output of SerializeStructToCBOR / JSON, read by the independent CBOR reader / a generic JSON parse, must be exactly one map = union of outer and embedded fields honouring omitempty and '-', right value per key, no duplicates, nothing trailing; serialising twice gives identical bytes; populating a fresh struct reproduces the value (incl. the all-empty one); for shapes without embedding the output decodes to the same map as the plain fxamacker / encoding/json marshaller's; removing a non-optional key makes populate fail (into a zero destination and into one that already holds values), removing an optional one does not; a duplicated CBOR key makes populate fail, also when the map is re-encoded as an indefinite-length / tagged / tagged indefinite-length / non-minimal-length map under the CBOR library's default decoding mode, while each of these forms without the duplicate populates to the same value. Extension profiles: MarshalCBOR/JSON of valid claims = base profile wire map + extension member, and round-trips. Every slice the serialisers return is kept and compared again after six further serialisations; the rich flat struct has optional fields whose tags list omitempty before other options. distinct_nontrivial = distinct (shape, set-field subset) signatures")
 	if err := extprof.Register(extprof.ExtP2Name, extprof.ExtP1Name); err != nil {
 		c.Violation("harness/register", err.Error(), nil)
 		return
